@@ -403,6 +403,14 @@ class BernoulliFamily(StatelessDistributionFamilyFromTorchDistribution):
     parameters: ClassVar = ("loc",)
     dist_factory: ClassVar = torch.distributions.Bernoulli
 
+    @classmethod
+    def _nll(cls, x: WeightedTensor, *params: torch.Tensor) -> WeightedTensor:
+        # Entries with a null weight (missing values, padding) may hold anything, not even a valid
+        # binary outcome: give them a dummy valid value so that torch does not validate (and refuse) them.
+        return WeightedTensor(
+            -cls.dist_factory(*params).log_prob(x.filled(0.0)), x.weight
+        )
+
 
 class NormalFamily(StatelessDistributionFamilyFromTorchDistribution):
     """
